@@ -84,6 +84,8 @@ type printerStringBranches struct {
 	quotedRet, rawRet, kwRet *ssa.Return
 	strVal                 ssa.Value // the string being printed (tobj)
 	marker                 string
+	strFn                  *ssa.Function // the function holding the string branches (Pr_str or a helper handed the string)
+	strKey                 string        // access path of the string being printed inside strFn
 }
 
 // findPrinterStringBranches locates, in Pr_str, the returns of the string case: keyword, quoted, raw.
@@ -103,46 +105,75 @@ func findPrinterStringBranches(w *World, e *Engine) (*printerStringBranches, str
 	if ps.marker == "" {
 		return nil, "the keyword marker constant of types.NewKeyword was not found"
 	}
-	for _, b := range fn.Blocks {
-		if len(b.Instrs) == 0 {
-			continue
-		}
-		ret, ok := b.Instrs[len(b.Instrs)-1].(*ssa.Return)
-		if !ok || len(ret.Results) != 1 {
-			continue
-		}
-		// only returns in the region where obj is a string
-		isStr := false
-		for _, f := range e.holding(b).list() {
-			if f.Kind == "type" && f.K.Root == ssa.Value(fn.Params[0]) && f.K.Path == "" {
-				if bt, ok := f.T.Underlying().(*types.Basic); ok && bt.Kind() == types.String && !types.IsInterface(f.T) {
-					isStr = true
+	// the string branches live in Pr_str itself (where its operand is known to be a string) or in an unexported
+	// function of the package that is handed the string
+	for _, cand := range w.withPkgHelpers(fn) {
+		strParam := false
+		if cand != fn {
+			for _, p := range cand.Params {
+				if isStringVal(p) {
+					strParam = true
 				}
 			}
+			if !strParam || cand.Signature.Results().Len() != 1 {
+				continue
+			}
 		}
-		if !isStr {
-			continue
-		}
-		parts := concatParts(ret.Results[0])
-		first, _ := constString(parts[0])
-		// the keyword branch: dominated by the true edge of a HasPrefix test on the string
-		isKw := false
-		for _, d := range fn.Blocks {
-			if iff := blockIf(d); iff != nil {
-				if c, ok := iff.Cond.(*ssa.Call); ok && isStringsFn(c, "HasPrefix") && edgeDominates(d, 0, b) {
+		for _, b := range cand.Blocks {
+			if len(b.Instrs) == 0 {
+				continue
+			}
+			ret, ok := b.Instrs[len(b.Instrs)-1].(*ssa.Return)
+			if !ok || len(ret.Results) != 1 {
+				continue
+			}
+			// only returns in the region where obj is a string
+			isStr := strParam
+			if cand == fn {
+				for _, f := range e.holding(b).list() {
+					if f.Kind == "type" && f.K.Root == ssa.Value(fn.Params[0]) && f.K.Path == "" {
+						if bt, ok := f.T.Underlying().(*types.Basic); ok && bt.Kind() == types.String && !types.IsInterface(f.T) {
+							isStr = true
+						}
+					}
+				}
+			}
+			if !isStr {
+				continue
+			}
+			parts := concatParts(ret.Results[0])
+			first, _ := constString(parts[0])
+			// the keyword branch: under a HasPrefix test of the string for the keyword marker
+			isKw := false
+			for _, a := range knownConds(b) {
+				if c, ok := a.v.(*ssa.Call); ok && a.pol && isStringsFn(c, "HasPrefix") {
 					if s, ok := constString(c.Call.Args[1]); ok && s == ps.marker {
 						isKw = true
 					}
 				}
 			}
+			switch {
+			case isKw:
+				ps.keyword, ps.kwRet = parts, ret
+				ps.strFn = cand
+			case len(parts) == 3 && first == "\"":
+				ps.quoted, ps.quotedRet = parts, ret
+				ps.strFn = cand
+			case len(parts) == 3 && first != "":
+				ps.raw, ps.rawRet = parts, ret
+				ps.strFn = cand
+			}
 		}
-		switch {
-		case isKw:
-			ps.keyword, ps.kwRet = parts, ret
-		case len(parts) == 3 && first == "\"":
-			ps.quoted, ps.quotedRet = parts, ret
-		case len(parts) == 3 && first != "":
-			ps.raw, ps.rawRet = parts, ret
+	}
+	if ps.strFn == nil {
+		ps.strFn = fn
+	}
+	ps.strKey = e.keyOf(fn.Params[0]).String() + ".(string)"
+	if ps.strFn != fn {
+		for _, p := range ps.strFn.Params {
+			if isStringVal(p) {
+				ps.strKey = e.keyOf(p).String()
+			}
 		}
 	}
 	if ps.quoted == nil || ps.raw == nil || ps.keyword == nil {
@@ -303,6 +334,7 @@ func checkC06(w *World, r *Report) {
 	tokenVerbatimRule(w, r, "C06.token-text")
 	textIntactRule(w, r, "C06.text-intact")
 	keywordInjectiveRule(w, r, "C06.keyword")
+	printerRules(w, r, "C06.one-escaper")
 	intInverseRule(w, r, "C06.int")
 	ps, why := findPrinterStringBranches(w, e)
 	if why != "" {
@@ -318,7 +350,7 @@ func checkC06(w *World, r *Report) {
 	P, pbase := replaceChain(ps.quoted[1])
 	openQ, _ := constString(ps.quoted[0])
 	closeQ, _ := constString(ps.quoted[2])
-	strKey := e.keyOf(ps.fn.Params[0]).String() + ".(string)"
+	strKey := ps.strKey
 	r.check(len(P) >= 2 && e.keyOf(pbase).String() == strKey, "C06.escape", ps.fn, "printer escape chain (quoted form)", ps.quotedRet.Pos(), pairSet(P, false), "the quoted form is not the printed string itself passed through a chain of replacements (base: "+describeVal(e, pbase, 0)+")")
 	var R []replPair
 	singlePass := false
@@ -434,12 +466,10 @@ func checkC06(w *World, r *Report) {
 	for _, f := range e.holding(ps.kwRet.Block()).list() {
 		_ = f
 	}
-	for _, b := range ps.fn.Blocks {
-		if iff := blockIf(b); iff != nil {
-			if c, ok := iff.Cond.(*ssa.Call); ok && isStringsFn(c, "HasPrefix") && edgeDominates(b, 0, ps.kwRet.Block()) {
-				if s, ok := constString(c.Call.Args[1]); ok {
-					markers["printer"] = s
-				}
+	for _, a := range knownConds(ps.kwRet.Block()) {
+		if c, ok := a.v.(*ssa.Call); ok && a.pol && isStringsFn(c, "HasPrefix") {
+			if s, ok := constString(c.Call.Args[1]); ok {
+				markers["printer"] = s
 			}
 		}
 	}
@@ -504,7 +534,7 @@ func checkC06(w *World, r *Report) {
 		}
 	}
 	// set and map: constant concatenations "#{" ... "}" and "{" ... "}"
-	for _, fn := range []*ssa.Function{ps.fn, w.Fn("printer", "hashMapToString")} {
+	for _, fn := range w.withPkgHelpers(ps.fn) {
 		if fn == nil {
 			continue
 		}
@@ -529,7 +559,15 @@ func checkC06(w *World, r *Report) {
 					}
 				}
 			} else {
-				printerBr["types.HashMap"] = [2]string{o, cl}
+				// a helper printing one kind of collection: the kind is the type of its parameter
+				for _, p := range fn.Params {
+					if _, name, ok := w.namedStruct(p.Type()); ok {
+						switch name {
+						case "HashMap", "Set", "List", "Vector":
+							printerBr[shortType(p.Type())] = [2]string{o, cl}
+						}
+					}
+				}
 			}
 		}
 	}
@@ -1071,6 +1109,7 @@ func checkC15(w *World, r *Report) {
 	// the pattern, evaluated on lines of the writer's shape
 	pat := ""
 	textIntactRule(w, r, "C15.text-intact")
+	printerRules(w, r, "C15.one-escaper")
 	r.rule("C15.verbatim", "the preamble line matched against the pattern is a piece of the text that was passed in, cut out only by operations that return part of their input unchanged (Cut, Trim…, slicing): a value's characters, including runs of blanks inside strings, reach the reader as they were written")
 	nvb := 0
 	for _, b := range rwpBlocks {
@@ -1137,7 +1176,7 @@ func checkC15(w *World, r *Report) {
 		}
 		if !okR {
 			// taken only for strings without LF
-			for _, b := range ps.fn.Blocks {
+			for _, b := range ps.strFn.Blocks {
 				iff := blockIf(b)
 				if iff == nil {
 					continue
@@ -1155,7 +1194,7 @@ func checkC15(w *World, r *Report) {
 			}
 			// conditions combined with && are lowered to several blocks: look at all dominating facts
 			if !okR {
-				okR = dominatedByNotContainsLF(ps.fn, ps.rawRet.Block())
+				okR = dominatedByNotContainsLF(ps.strFn, ps.rawRet.Block())
 			}
 		}
 		r.check(okR, "C15.line-safe", ps.fn, "raw form", ps.rawRet.Pos(), "taken only for strings without LF (or LF is mapped)", "the raw form emits line breaks verbatim, but the preamble is line-oriented: a multi-line value cannot be read back (a reader-side repair would equally resolve this)")
@@ -1258,9 +1297,45 @@ func containsCalls(cond ssa.Value, pol bool, e *Engine, b *ssa.BasicBlock) []*ss
 
 // dominatedByNotContainsLF: some dominating branch edge of b is the false edge of strings.Contains(s, "\n").
 func dominatedByNotContainsLF(fn *ssa.Function, b *ssa.BasicBlock) bool {
-	for _, a := range knownConds(b) {
+	isNoLF := func(a condAtom) bool {
 		if c, ok := a.v.(*ssa.Call); ok && isStringsFn(c, "Contains") && !a.pol {
 			if s, ok := constString(c.Call.Args[1]); ok && s == "\n" {
+				return true
+			}
+		}
+		return false
+	}
+	for _, a := range knownConds(b) {
+		if isNoLF(a) {
+			return true
+		}
+		// a predicate of the package that is true only for strings without a line break
+		if c, ok := a.v.(*ssa.Call); ok && a.pol && c.Call.StaticCallee() != nil && c.Call.StaticCallee().Pkg == fn.Pkg && len(c.Call.StaticCallee().Blocks) > 0 {
+			h := c.Call.StaticCallee()
+			all, n := true, 0
+			for _, hb := range h.Blocks {
+				if len(hb.Instrs) == 0 {
+					continue
+				}
+				ret, ok := hb.Instrs[len(hb.Instrs)-1].(*ssa.Return)
+				if !ok || len(ret.Results) != 1 {
+					continue
+				}
+				if k, ok := ret.Results[0].(*ssa.Const); ok && k.Value != nil && k.Value.Kind() == constant.Bool && !constant.BoolVal(k.Value) {
+					continue // returns false here
+				}
+				n++
+				found := false
+				for _, x := range append(knownConds(hb), valueConds(ret.Results[0], true)...) {
+					if isNoLF(x) {
+						found = true
+					}
+				}
+				if !found {
+					all = false
+				}
+			}
+			if all && n > 0 {
 				return true
 			}
 		}
